@@ -106,8 +106,10 @@ func (s *SelfManaged) Receive(c *actor.Context) {
 	case memberPing:
 		s.handleMemberPing(c)
 	case memberLeave:
-		member := s.members.GetByHost(msg.ListenAddr)
-		s.removeMember(member)
+		// the unreachable address is not necessarily one of our members.
+		if member := s.members.GetByHost(msg.ListenAddr); member != nil {
+			s.removeMember(member)
+		}
 	case *actor.Ping:
 	case actor.Initialized:
 		_ = msg
